@@ -152,6 +152,10 @@ def run_case(case, note, skip):
             if only is not None and only != sub:
               continue
             recipe = [md.rule(rg, sel, mode)]
+            if mode == 'SRQ16' and sel != '*':
+              # a later rule under the SAME regex for an operator the model
+              # does not contain (the static-range rule is no longer last)
+              recipe.append(md.rule(rg, 'CONV_2D_TRANSPOSE', 'WO8c'))
             res['evals'] += 1
             res['transitions'] += 2
             res['traces'] += 1
